@@ -89,3 +89,60 @@ def check_C08(c):
 def check_C13(c):
     c.scenario("inflate_protocol")
     return c.finish("model_checking", RULE_DEC, TRUST)
+
+
+RULE_COMP = ("one case = one (input, configuration, call schedule) driven through the real compressor; every call is "
+             "judged by DeflateContract, the concatenated output is parsed by the TLA+ acceptor against the input; "
+             "non-trivial = every case")
+
+
+def check_C02(c):
+    mc_params(c)
+    c.scenario("streamcomp")
+    return c.finish("model_checking", RULE_COMP, TRUST)
+
+
+def check_C12(c):
+    c.scenario("flushes")
+    return c.finish("model_checking", RULE_COMP, TRUST)
+
+
+def check_C14(c):
+    c.scenario("deflate_protocol")
+    return c.finish("model_checking", RULE_COMP, TRUST)
+
+
+def check_C15(c):
+    c.scenario("bound")
+    return c.finish("model_checking",
+                    "one case = one (length, content family, level, strategy): mz_compressBound/mz_deflateBound compared with the spec's Bound(n), one-call compression into a destination of exactly that size placed against a guard page; lengths 0..300 exhaustively plus block-size thresholds",
+                    TRUST)
+
+
+def check_C16(c):
+    c.scenario("checksums")
+    c.scenario("checksums", features=["simd"])
+    return c.finish("model_checking",
+                    "one case = one buffer (length family x content) with every split point (short) or random splits; each call (start value, data, result) is recomputed by TLC from the Adler-32 / CRC-32 definitions in spec/Checksums.tla; scalar and simd builds",
+                    TRUST)
+
+
+def check_C17(c):
+    c.scenario("capi")
+    return c.finish("model_checking",
+                    "one case = one C stream (deflate or inflate) driven through the extern \"C\" entry points with guard-paged buffers and a random (avail_in, avail_out, flush) schedule, each call mirrored on a Rust twin; plus parameter/misuse table and one-shot helpers",
+                    TRUST + ["out-of-range memory access is observed by PROT_NONE guard pages (a fault kills the harness, which the orchestrator reports as a violation), not derived from the spec"])
+
+
+def check_C18(c):
+    c.scenario("reset")
+    return c.finish("model_checking",
+                    "one case = one (history, reset variant, follow-up) triple: the reset object and a fresh object are driven with the same call sequence and every call's result and bytes must be equal; also two fresh objects (determinism)",
+                    TRUST)
+
+
+def check_C19(c):
+    c.scenario("snapshots")
+    return c.finish("model_checking",
+                    "one case = one stream with forks (clone, serde_json, rmp-serde) at inter-call points and a rebuild from the block-boundary record at every boundary; all forks must finish identically; boundary records are checked against the acceptor's block list",
+                    TRUST)
